@@ -1,5 +1,6 @@
 """C16 — every shipped fact can be found by its own words."""
 import itertools
+import re
 import json
 import vlib
 import qcorr
@@ -88,6 +89,9 @@ def run(rng, tier, model_ok):
     for p, o, q in items:
         words = [shipped[p]["tokens"][i] for i in o]
         if not typeable[q]:
+            if all(re.fullmatch(r"[a-z][a-z0-9°']*", w) and w != "to" for w in words):
+                failures.append({"input": q, "constant": shipped[p]["description"],
+                                 "why": "the words are plain query-language words (letters, digits, ° and ') but the text is not read as a phrase: the fact cannot be asked for"})
             cases.append((13, [p, -1] + o, [0, 1]))
             if o == sorted(o):
                 not_typeable.append(p)
